@@ -16,6 +16,27 @@ def eng(name, quick, thorough, **kw):
     return d
 
 
+# functions (skeleton names of tools/gx) each property's model was written from; scripts/mk_tie_skel.py
+# turns each list into the digest obligations lean/GorumsV/Tie/<prop>Skel.lean
+LOOPS = ["QuorumCall", "AsyncCall", "handleAsyncCall"]
+SKELS = {
+    "C01": LOOPS + ["AsyncGet", "AsyncDone", "tmplfile_quorumcall", "tmplfile_async", "tmplfile_datatypes", "tmplfile_qspec"],
+    "C02": LOOPS + ["AsyncGet", "AsyncDone", "QCEError", "nodeErrorError"],
+    "C03": ["ch_enqueue", "ch_sender", "ch_sendMsg", "ch_newChannel", "srv_NodeStream", "QuorumCall", "AsyncCall", "CorrectableCall", "Multicast", "Unicast", "RPCCall", "tmplfile_server"],
+    "C04": ["srv_NodeStream", "srv_Release", "srv_SendMessage", "tmplfile_server"],
+    "C05": ["ch_enqueue", "ch_routeResponse", "ch_cancelPendingMsgs", "ch_deleteRouter", "ch_receiver", "mgr_RawManager_getMsgID", "cfg_RawConfiguration_getMsgID",
+            "WrapMessage", "RPCCall", "QuorumCall", "AsyncCall", "CorrectableCall", "Multicast", "Unicast"],
+    "C06": ["Multicast", "Unicast", "getCallOptions", "WithNoSendWaiting", "ch_sendMsg", "ch_waitForSend", "QuorumCall", "AsyncCall", "CorrectableCall",
+            "tmplfile_multicast", "tmplfile_unicast"],
+    "C07": ["ch_sender", "ch_receiver", "ch_cancelPendingMsgs", "ch_connect", "ch_routeResponse", "QuorumCall", "handleAsyncCall", "QCEError", "nodeErrorError", "WrapMessage"],
+    "C08": ["ch_enqueue", "RPCCall", "QuorumCall", "handleAsyncCall", "handleCorrectableCall", "Multicast", "Unicast", "ch_sendMsg", "ch_reconnect"],
+    "C09": ["ch_newNodeStream", "ch_enqueue", "ch_routeResponse", "ch_cancelPendingMsgs", "ch_deleteRouter", "ch_sendMsg", "ch_sender", "ch_receiver", "ch_connect", "ch_reconnect",
+            "ch_isConnected", "handleCorrectableCall"],
+    "C10": ["ch_connect", "ch_reconnect", "ch_newNodeStream", "ch_receiver", "ch_sender", "ch_newChannel", "node_RawNode_newContext", "node_RawNode_dial", "node_RawNode_connect", "srv_NodeStream"],
+    "C12": ["mgr_RawManager_Close", "mgr_RawManager_closeNodeConns", "node_RawNode_close", "node_RawNode_connect", "ch_enqueue", "ch_sender", "ch_receiver", "ch_reconnect", "Multicast", "Unicast"],
+    "C18": ["ch_routeResponse", "ch_enqueue", "ch_deleteRouter", "ch_cancelPendingMsgs", "ch_sendMsg", "handleAsyncCall", "handleCorrectableCall", "QuorumCall"],
+}
+
 TECH = "Lean 4 theorems over a hand-written executable model; tie = decision expressions regenerated from the Go source (gx) + skeleton digests + differential run of the real code against the Lean driver"
 
 NOT_APPLICABLE = {}
